@@ -1,6 +1,24 @@
 """C45 — Session.merge copies state onto the session's single instance (ormsim)."""
 from props import _orm
 
+def _shape(rng, pool, cfg=None):
+    """merge while the session holds unflushed work that moves identities and nothing else: a delete (or a key change) of the very
+    identity that is merged next"""
+    if rng.random() > 0.25:
+        return None
+    r = lambda: rng.randrange(64)
+    prog = [["mk", rng.choice((0, 1, 2, 3, 6)), 1 + 3 * rng.randrange(20)] for _ in range(rng.randint(1, 3))]
+    prog.append(["commit", 0, 0])
+    if rng.random() < 0.5:
+        prog.append([rng.choice(("requery", "read", "get")), r(), r()])
+    prog.append([rng.choice(("delete", "delete", "k_rename", "set")), r(), r()])
+    for _ in range(rng.randint(1, 3)):
+        prog.append(["merge", r(), 6 * rng.randrange(10)])
+    prog.append([rng.choice(("flush", "commit")), 0, 0])
+    prog += [[rng.choice(pool), r(), r()] for _ in range(rng.randint(0, 6))]
+    return prog
+
+
 _orm.define(globals(), "C45", ("C45",), "merge",
             "deterministic simulation: seeded ORM session histories in which transient copies (some scalars, mutable values, a one-to-many "
             "collection reached by merge cascade), clean detached instances read by a second session (load=False) and brand-new identities are "
@@ -10,4 +28,4 @@ _orm.define(globals(), "C45", ("C45",), "merge",
             "seeded search over merge mixed with flush / commit / rollback / expire / expunge / close, autoflush on and off.  Sampled.",
             "only merge cascades along A.bs (and back through B.a) are exercised; merging onto a primary key changed in memory is not generated",
             weights={"merge": 14, "expunge": 2, "close": 2, "expire": 2, "commit": 3, "rollback": 2, "mk": 6, "mk_child": 5, "set": 3, "flush": 3,
-                     "requery": 2, "mut_data": 2, "delete": 1, "m_ops": 3, "m_reload": 4, "set_k": 1})
+                     "requery": 2, "mut_data": 2, "delete": 1, "m_ops": 3, "m_reload": 4, "set_k": 1}, shape=_shape)
